@@ -329,6 +329,62 @@ func ruleR20Keepdims(c *Ctx, prop string) {
 			}
 		}
 		c.decide(ok, "R20", key, c.pos(reshapes[0].Pos()), "re-insertion of reduced axes happens exactly on the keepdims edge", why)
+		// "all axes when none are given": gorgonia's Max()/Min() without axes reduce every axis, while a loop
+		// "for each requested axis: extent 1" leaves the shape unchanged for the empty list — with keepdims the
+		// result () is then reshaped to the input's shape and refused. Any correct keepdims path has to tell the
+		// empty list from a non-empty one: a comparison of the length of (a copy of) the axes list with 0 / 1.
+		if name != "ArgMax" {
+			fi := fieldIndex(oi.named, "axes")
+			if fi < 0 {
+				c.undecided("R20", key+":all-axes", c.pos(apply.Pos()), "attribute field axes not found")
+				continue
+			}
+			reach := c.reachFrom([]*ssa.Function{apply})
+			D := c.forwardSet(nil, []fieldKey{{oi.named, fi}}, func(f *ssa.Function) bool { return reach[f] })
+			lenOfAxes := func(v ssa.Value) bool {
+				cl, isCall := stripConv(v).(*ssa.Call)
+				if !isCall {
+					return false
+				}
+				if b, isB := cl.Common().Value.(*ssa.Builtin); !isB || b.Name() != "len" {
+					return false
+				}
+				x := cl.Common().Args[0]
+				if D.has(x) {
+					return true
+				}
+				if mk, isMk := x.(*ssa.MakeSlice); isMk && D.has(mk.Len) {
+					return true
+				}
+				return false
+			}
+			found := ""
+			for f := range reach {
+				for _, b := range f.Blocks {
+					for _, in := range b.Instrs {
+						bo, isBo := in.(*ssa.BinOp)
+						if !isBo {
+							continue
+						}
+						var other ssa.Value
+						switch {
+						case lenOfAxes(bo.X):
+							other = bo.Y
+						case lenOfAxes(bo.Y):
+							other = bo.X
+						default:
+							continue
+						}
+						if k, isK := constInt(other); isK && (k == 0 || k == 1) {
+							found = c.pos(bo.Pos())
+						}
+					}
+				}
+			}
+			c.decide(found != "", "R20", key+":all-axes", firstNonEmpty(found, c.pos(reshapes[0].Pos())),
+				"the empty axes list (reduce everything) is told apart from a non-empty one before the kept shape is built",
+				"nothing distinguishes an empty axes list: gorgonia reduces ALL axes when none are given, but the kept shape is built per requested axis, so with keepdims=1 and no axes the scalar result is reshaped to the input's own shape and the operator answers with an error instead of the all-ones shape")
+		}
 	}
 	// ArgMax result element type
 	if oi := c.opByName("ArgMax"); oi != nil {
